@@ -156,6 +156,15 @@ def _ensure_cache():
     return CACHE
 
 
+def first_per_clause(fails):
+    """[[clause, event], ...] as printed by a monitor -> one entry per distinct clause (its first event).  Never cut a
+    verdict by position: a trace that fails many events of one clause must not hide another clause."""
+    first = {}
+    for c in sorted(fails, key=lambda f: (f[1], f[0])):
+        first.setdefault(c[0], c[1])
+    return [[c, i] for c, i in first.items()]
+
+
 # ---- known findings -----------------------------------------------------------------------------------------
 
 def load_findings():
